@@ -9,7 +9,7 @@
    loop of the parser advances by at least one byte per iteration and nesting is bounded by the
    recursion guard - so [parse] returns Ok, a ParseError inside the pattern, or NamedBackrefOnly.
    Not modelled: time, allocation and native stack of the Rust code (runtime behaviour). *)
-From FR Require Import Base Utf8 Utf8Facts Ast Analyze Parse Escape ExprLemmas SemSound ParseInv ParseIdx ParseFuel.
+From FR Require Import Base Utf8 Utf8Facts Ast Analyze Parse Escape ExprLemmas SemSound ParseInv ParseIdx ParseFuel Compile.
 From Coq Require Import NArith Lia.
 
 Lemma sat_add_bounded a b : (sat_add a b <= usize_max)%N.
@@ -76,6 +76,21 @@ Theorem C06_parse_total : forall re, valid_text re ->
   end.
 Proof. exact parse_total. Qed.
 
+
+(* ... and the analysis never reaches its panic (info.children[0] / min over an empty alternation):
+   every alternation the parser builds has at least two alternatives (a third instance of the
+   generic parser induction), so Regex::new on the model - parse, analyse, compile - returns a
+   regex or an error for every pattern string; the model has no other panic outcome in
+   analysis or compilation, and to_str is total on what it is given (C06_to_str_total) *)
+Theorem C06_analysis_never_panics : forall re e st bs, parse re = POk (e, st) ->
+  regex_new bs e <> inl (NAnalyze APanicEmptyAlt).
+Proof.
+  intros re e st bs Hp H. pose proof (parse_alt2 re e st Hp) as Ha.
+  unfold regex_new in H. destruct (acheck 0 (wrap e)) as [er|] eqn:E.
+  - inversion H; subst. apply (acheck_no_empty_alt (wrap e)) in E; [exact E|]. cbn. auto.
+  - destruct (hard bs 1 e); [destruct (compile bs (wrap e))|]; discriminate.
+Qed.
+
 Theorem C06_fuel_is_linear : forall re, parse_fuel re = 12 * (length re + 80).
 Proof. reflexivity. Qed.
 
@@ -94,3 +109,4 @@ Print Assumptions C06_parse_never_panics.
 Print Assumptions C06_parse_tree_wellformed.
 Print Assumptions C06_error_position.
 Print Assumptions C06_parse_total.
+Print Assumptions C06_analysis_never_panics.
